@@ -57,6 +57,18 @@ CLAIMS["C07"] = dict(
         "the capability gate. Correspondence: every code in every position, TC1-4 x CA0-7, BDS 2,0 via DF20/21 under capability 0..7 x -R.",
    note="trusted: Lean kernel and standard axioms; harness; Spec/Ident.lean. W/CALLSIGN cells are covered by the rendering model (C14).",
    technique="Lean 4 proof (field lemmas + finite enumeration) + model/implementation correspondence", ref="5.7")
+CLAIMS["C08"] = dict(
+   text="Lean 4 theorems (Props/C08.lean): an accepted TC 9-18 frame acts on the position state exactly as storeCpr on a row stamped with the "
+        "current time, on both update paths; the position either stays exactly as it was or is cprLocation of the stored pair anchored on the "
+        "frame just received, and only when all four CPR fields are non-zero, both slots were filled by airborne frames (or both by surface "
+        "frames), the receive times are < 10 whole seconds apart, the two candidate latitudes are in the same NL zone and the result is in "
+        "range; distance = the configured distance function of that position; frames of other formats leave position state unchanged. "
+        "Arithmetic (Props/C08Math.lean, exact rationals): see DESIGN 5.8. Correspondence and oracle: histories stratified over every NL "
+        "transition latitude, zone edges, antimeridian, delays around 10 s, interleaved and surface frames; shown position within 20 m of truth.",
+   note="partial: the 20 m clause and the great-circle distance involve f64 trigonometry and are compared numerically on every generated history, "
+        "not proved; the model evaluates cpr_location in exact rationals, the code in f64 (compared to 1e-9 deg). trusted: Lean kernel and "
+        "standard axioms; harness; NL table extractor.",
+   technique="Lean 4 proof (state machine + exact-rational CPR arithmetic) + model/implementation correspondence + encode-side oracle", ref="5.8")
 CLAIMS["C09"] = dict(
    text="Lean 4 theorems (Props/C09.lean), for every atan2deg function: trackAndGroundspeed and verticalRate are the specification's functions of "
         "the six velocity fields (field 0 = no value, magnitude = field-1, sign bits, x4 supersonic, Nat.sqrt), depend on those fields only, reach "
